@@ -3,6 +3,7 @@ package main
 import (
 	"fmt"
 	"go/ast"
+	"go/token"
 	"go/types"
 	"strings"
 )
@@ -83,34 +84,64 @@ func runC13(c *Ctx) {
 				}
 			}
 		})
-		for _, pt := range f.Find(func(n ast.Node) bool {
-			cl, ok := n.(*ast.CallExpr)
-			if !ok {
-				return false
+		// an Invoke site is any use of a callback's Invoke field: the call cb.Invoke(...), or the
+		// function value cb.Invoke handed to a (synchronous, spliced) invoker
+		isInvokeUse := func(n ast.Node) (ast.Expr, bool) {
+			se, ok := n.(*ast.SelectorExpr)
+			if !ok || se.Sel.Name != "Invoke" || shortTypeName(typeName(info.TypeOf(se.X))) != "callback" {
+				return nil, false
 			}
-			_, isInv := reactiveCalleeIs(info, cl, "Invoke")
+			return se.X, true
+		}
+		if fd.Recv == nil && splicedEverywhere(p, pkg, fd) {
+			continue // a shared notification helper: judged inside every writer it is spliced into
+		}
+		for _, pt := range f.Find(func(n ast.Node) bool {
+			_, isInv := isInvokeUse(n)
 			return isInv
 		}) {
-			var inv *ast.CallExpr
+			var inv *ast.SelectorExpr
 			inspectNoLit(f.nodeAt(pt), func(n ast.Node) bool {
-				if cl, ok := n.(*ast.CallExpr); ok && inv == nil {
-					if _, isInv := reactiveCalleeIs(info, cl, "Invoke"); isInv {
-						inv = cl
+				if se, ok := n.(*ast.SelectorExpr); ok && inv == nil {
+					if _, isInv := isInvokeUse(se); isInv {
+						inv = se
 					}
 				}
 				return inv == nil
 			})
-			recvX, _ := reactiveCalleeIs(info, inv, "Invoke")
+			recvX, _ := isInvokeUse(inv)
 			cbObj := objOfIdent(info, recvX)
 			nInvoke++
 			key := fmt.Sprintf("Invoke of %s in %s", exprKey(recvX), fkey)
+			// the same callback: the same variable, or - across a registration helper that returns
+			// the callback it created and locked - the same defining expression
+			cbDef, _ := f.Resolve(recvX, pt)
 			sameCb := func(n ast.Node, name string) bool {
 				cl, ok := n.(*ast.CallExpr)
 				if !ok {
 					return false
 				}
 				x, ok := reactiveCalleeIs(info, cl, name)
-				return ok && objOfIdent(info, x) == cbObj && cbObj != nil
+				if !ok {
+					return false
+				}
+				if objOfIdent(info, x) == cbObj && cbObj != nil {
+					return true
+				}
+				if q, okp := f.PointOf(cl); okp {
+					if d, _ := f.Resolve(x, q); d != nil && d == cbDef {
+						// the defining expression creates one object: a constructor call or &T{...}
+						switch y := ast.Unparen(d).(type) {
+						case *ast.CallExpr, *ast.CompositeLit:
+							return true
+						case *ast.UnaryExpr:
+							if _, isLit := ast.Unparen(y.X).(*ast.CompositeLit); isLit && y.Op == token.AND {
+								return true
+							}
+						}
+					}
+				}
+				return false
 			}
 			// idiom A: true edge of LockExecution dominates, UnlockExecution follows on every path
 			lockedT, _ := f.CondEdges(func(e ast.Expr) bool { return sameCb(e, "LockExecution") })
@@ -147,7 +178,15 @@ func runC13(c *Ctx) {
 			// writers: the notification happens under the order mutex
 			if recvT := recvTypeName(fd); recvT == "variable" || recvT == "set" || recvT == "derivedSet" {
 				hasOrder := false
-				heldHere := heldAt[inv]
+				var heldHere LockSet
+				inspectNoLit(f.nodeAt(pt), func(n ast.Node) bool {
+					if cl, ok := n.(*ast.CallExpr); ok && heldHere == nil {
+						if h, has := heldAt[cl]; has {
+							heldHere = h
+						}
+					}
+					return true
+				})
 				// an Invoke inside an expanded helper runs under whatever the analysed function
 				// holds at the (outermost) helper call
 				if reg := f.regionOf[pt.B]; reg != nil {
@@ -345,33 +384,93 @@ func checkReactiveRegistration(r *Reporter, p *Prog, pkg, typ string) {
 		r.Unresolved("reg/hand-off", key, "method not found")
 		return
 	}
-	recvObj := info.Defs[fd.Recv.List[0].Names[0]]
-	recvPath := fmt.Sprintf("%s@%d", recvObj.Name(), recvObj.Pos())
 	mutexName := map[string]string{"readableVariable": "valueMutex", "readableSet": "mutex"}[typ]
-	var cbVar, elemVar types.Object
-	ast.Inspect(fd.Body, func(n ast.Node) bool {
-		as, ok := n.(*ast.AssignStmt)
-		if !ok || len(as.Lhs) != 1 || len(as.Rhs) != 1 {
+	// the registration stage: OnUpdate itself, or an unexported method of the receiver it delegates
+	// to (`value, cb, elem := r.registerCallback(callback)`), found by the push onto the callback list
+	findPush := func(body *ast.BlockStmt) (cb, elem types.Object) {
+		ast.Inspect(body, func(n ast.Node) bool {
+			if _, isLit := n.(*ast.FuncLit); isLit {
+				return false
+			}
+			as, ok := n.(*ast.AssignStmt)
+			if !ok || len(as.Lhs) != 1 || len(as.Rhs) != 1 {
+				return true
+			}
+			if cl, ok := ast.Unparen(as.Rhs[0]).(*ast.CallExpr); ok && strings.HasSuffix(exprKey(cl.Fun), "Callbacks.PushBack") && len(cl.Args) == 1 {
+				if o := objOfIdent(info, cl.Args[0]); o != nil {
+					cb, elem = o, objOfIdent(info, as.Lhs[0])
+				}
+			}
 			return true
-		}
-		if cl, ok := ast.Unparen(as.Rhs[0]).(*ast.CallExpr); ok {
-			k := exprKey(cl.Fun)
-			if strings.HasPrefix(k, "newCallback") {
-				cbVar = objOfIdent(info, as.Lhs[0])
+		})
+		return
+	}
+	regFd := fd
+	cbVar, elemVar := findPush(fd.Body)
+	regCb, regElem := cbVar, elemVar
+	if cbVar == nil {
+		ast.Inspect(fd.Body, func(n ast.Node) bool {
+			as, ok := n.(*ast.AssignStmt)
+			if !ok || len(as.Rhs) != 1 || cbVar != nil {
+				return true
 			}
-			if strings.HasSuffix(k, "Callbacks.PushBack") && len(cl.Args) == 1 && cbVar != nil && objOfIdent(info, cl.Args[0]) == cbVar {
-				elemVar = objOfIdent(info, as.Lhs[0])
+			cl, ok := ast.Unparen(as.Rhs[0]).(*ast.CallExpr)
+			if !ok {
+				return true
 			}
-		}
-		return true
-	})
+			fn := staticCallee(info, cl)
+			if fn == nil {
+				return true
+			}
+			hd := p.decls().byFunc[fn.Origin()]
+			if hd == nil || hd.Body == nil || hd.Recv == nil || hd.Name.IsExported() || recvTypeName(hd) != typ {
+				return true
+			}
+			hcb, helem := findPush(hd.Body)
+			if hcb == nil || helem == nil {
+				return true
+			}
+			// the helper's single return hands both back: map its result positions to OnUpdate's variables
+			var ret *ast.ReturnStmt
+			nRet := 0
+			ast.Inspect(hd.Body, func(m ast.Node) bool {
+				if _, isLit := m.(*ast.FuncLit); isLit {
+					return false
+				}
+				if rs, ok := m.(*ast.ReturnStmt); ok {
+					ret, nRet = rs, nRet+1
+				}
+				return true
+			})
+			if nRet != 1 || len(ret.Results) != len(as.Lhs) {
+				return true
+			}
+			for k, res := range ret.Results {
+				switch objOfIdent(info, res) {
+				case hcb:
+					cbVar = objOfIdent(info, as.Lhs[k])
+				case helem:
+					elemVar = objOfIdent(info, as.Lhs[k])
+				}
+			}
+			if cbVar != nil && elemVar != nil {
+				regFd, regCb, regElem = hd, hcb, helem
+			} else {
+				cbVar, elemVar = nil, nil
+			}
+			return true
+		})
+	}
+	_ = regElem
 	if cbVar == nil || elemVar == nil {
 		r.Fail("reg/hand-off", key, p.posStr(fd.Pos()), "registration must create a callback and push it onto the callback list")
 		return
 	}
+	recvObj := info.Defs[regFd.Recv.List[0].Names[0]]
+	recvPath := fmt.Sprintf("%s@%d", recvObj.Name(), recvObj.Pos())
 	var bad []string
 	nSteps, nSnapshot := 0, 0
-	AnalyzeLocks(fd.Body, LockSet{}, &FlowOpts{Info: info}, func(n ast.Node, stack []ast.Node, held LockSet) {
+	AnalyzeLocks(regFd.Body, LockSet{}, &FlowOpts{Info: info}, func(n ast.Node, stack []ast.Node, held LockSet) {
 		cl, ok := n.(*ast.CallExpr)
 		if !ok {
 			return
@@ -386,7 +485,7 @@ func checkReactiveRegistration(r *Reporter, p *Prog, pkg, typ string) {
 						inLit = true
 					}
 				}
-				ast.Inspect(fd.Body, func(m ast.Node) bool {
+				ast.Inspect(regFd.Body, func(m ast.Node) bool {
 					if l, ok := m.(*ast.FuncLit); ok && l.Pos() <= cl.Pos() && cl.End() <= l.End() {
 						inLit = true // lexically inside a closure (e.g. the returned unsubscribe function)
 					}
@@ -402,7 +501,7 @@ func checkReactiveRegistration(r *Reporter, p *Prog, pkg, typ string) {
 		}
 		isPush := strings.HasSuffix(k, "Callbacks.PushBack")
 		x, isLockExec := reactiveCalleeIs(info, cl, "LockExecution")
-		if !(isPush || (isLockExec && objOfIdent(info, x) == cbVar)) {
+		if !(isPush || (isLockExec && objOfIdent(info, x) == regCb)) {
 			return
 		}
 		nSteps++
@@ -461,26 +560,57 @@ func checkReactiveRegistration(r *Reporter, p *Prog, pkg, typ string) {
 func checkReactivePayload(r *Reporter, p *Prog) {
 	const pkg = "ds/reactive"
 	info := p.Pkg(pkg).TypesInfo
-	for _, row := range []struct{ typ, m string }{{"set", "apply"}, {"derivedSet", "applyInheritedMutations"}} {
+	// provenance at the writers: what is handed to the subscribers (the argument of Invoke, or of a
+	// function value bound to an Invoke field) is the value the underlying set's Apply returned -
+	// through tuple or struct results of the locked helper, temporaries and helper parameters
+	for _, row := range []struct{ typ, m string }{{"set", "Apply"}, {"set", "Compute"}, {"derivedSet", "inheritMutations"}} {
 		fd := p.FuncDecl(pkg, row.typ, row.m)
 		key := pkg + "." + row.typ + "." + row.m
 		if fd == nil {
 			r.Unresolved("payload/applied-diff", key, "method not found")
 			continue
 		}
-		ok := false
-		ast.Inspect(fd.Body, func(n ast.Node) bool {
-			if rs, isRet := n.(*ast.ReturnStmt); isRet && len(rs.Results) == 3 {
-				if cl, isCall := ast.Unparen(rs.Results[0]).(*ast.CallExpr); isCall && strings.HasSuffix(exprKey(cl.Fun), ".value.Apply") {
-					ok = true
-				}
+		f := newFuncCFG(p, info, fd.Body, key)
+		n, bad := 0, ""
+		for _, b := range f.G.Blocks {
+			if !b.Live {
+				continue
 			}
-			return true
-		})
-		if ok {
+			for i, nd := range b.Nodes {
+				pt := Point{b, i}
+				inspectNoLit(nd, func(m ast.Node) bool {
+					cl, ok := m.(*ast.CallExpr)
+					if !ok || len(cl.Args) != 1 {
+						return true
+					}
+					isInvoke := false
+					if se, isSel := ast.Unparen(cl.Fun).(*ast.SelectorExpr); isSel && se.Sel.Name == "Invoke" && shortTypeName(typeName(info.TypeOf(se.X))) == "callback" {
+						isInvoke = true
+					} else if id, isId := ast.Unparen(cl.Fun).(*ast.Ident); isId {
+						if re, _ := f.Resolve(id, pt); re != nil {
+							if se, isSel := ast.Unparen(re).(*ast.SelectorExpr); isSel && se.Sel.Name == "Invoke" {
+								isInvoke = true
+							}
+						}
+					}
+					if !isInvoke {
+						return true
+					}
+					n++
+					if k := f.KeyAt(cl.Args[0], pt); !strings.Contains(k, ".value.Apply(") {
+						bad = fmt.Sprintf("%s: subscribers are handed %s", p.posStr(cl.Pos()), k)
+					}
+					return true
+				})
+			}
+		}
+		switch {
+		case n == 0:
+			r.Fail("payload/applied-diff", key, p.posStr(fd.Pos()), "no notification of the subscribers found")
+		case bad != "":
+			r.Fail("payload/applied-diff", key, p.posStr(fd.Pos()), "the reported mutations must be the value returned by the underlying Apply (the diff that actually changed membership); "+bad)
+		default:
 			r.Pass("payload/applied-diff", key, p.posStr(fd.Pos()), "subscribers receive the mutations returned by the underlying set's Apply")
-		} else {
-			r.Fail("payload/applied-diff", key, p.posStr(fd.Pos()), "the reported mutations must be the value returned by the underlying Apply (the diff that actually changed membership)")
 		}
 	}
 	fd := p.FuncDecl(pkg, "set", "replace")
